@@ -84,6 +84,24 @@ void h_word_if_known(void)
   IPR_CANARY_POINT();
 }
 
+/* K1 known_word(s) for a NUL-terminated spelling: the table entry spelled s, std::domain_error when there is none
+   (word_if_known through the contract proved above; char_traits::length = strlen assumed) */
+#ifdef WITH_KNOWN_WORD
+word_t* @{word_if_known}(sv_t w) { int k = reserved_index(w); return k < 0 ? 0 : &WORDS[k]; }
+void h_known_word(void)
+{
+  unsigned char* s = malloc(SV_MAX + 1); __CPROVER_assume(s != 0);
+  unsigned long n = nondet_ulong(); __CPROVER_assume(n <= SV_MAX); __CPROVER_assume(s[n] == 0);
+  for (int i = 0; i < SV_MAX; i++) __CPROVER_assume(i >= n || s[i] != 0);
+  sv_t w; w.f__M_len = n; w.f__M_str = s;
+  int k = reserved_index(w);
+  __ipr_allow_exc = k < 0 ? IPR_EXC_std__domain_error : IPR_ALLOW_NONE;
+  word_t* r = @{known_word}(s);
+  __CPROVER_assert(k >= 0 && r == &WORDS[k], "C03: known_word returns the table entry with exactly that spelling and refuses every other spelling");
+  IPR_CANARY_POINT();
+}
+#endif
+
 /* K1 intern, from an arbitrary prior bucket state */
 void h_intern(void)
 {
